@@ -31,9 +31,15 @@ func symHeaders(maxNames int) (h http.Header, nominated string) {
 	if symChoice(2) == 1 {
 		h[hopByHop[1+symChoice(len(hopByHop)-1)]] = []string{"h"}
 	}
-	if symChoice(2) == 1 {
+	switch symChoice(3) {
+	case 1:
 		nominated = "X-B"
 		h["Connection"] = []string{"keep-alive, x-b"}
+		h["X-B"] = []string{"secret"}
+	case 2:
+		// the same list spread over two Connection field lines (RFC 9110 section 5.3: equivalent)
+		nominated = "X-B"
+		h["Connection"] = []string{"keep-alive", "x-b"}
 		h["X-B"] = []string{"secret"}
 	}
 	return
